@@ -2,7 +2,7 @@
  * file, file-slash states) and does not replace it afterwards, the URL it hands out reports the base's host kind. */
 void harness(void) {
   HAVOC_BUFS;
-  sv_t user_input; user_input.n = nondet_size(); MAKE_SV(user_input);
+  ND_SV(user_input);
   struct url_aggregator base; base.base.is_valid = nondet_bool(); base.base.has_opaque_path = nondet_bool();
   __CPROVER_assume(AGG_SHAPE(&base));
   const struct url_aggregator *bp = nondet_bool() ? &base : (const struct url_aggregator *)0;
